@@ -205,11 +205,11 @@ def convectionUpwindTermCylindrical1D(u: FaceVariable, *args):
     APx = (rf[1:Nx+1]*ue_max-rf[0:Nx]*uw_min)/(rp*DXp)
     # correct for the cells next to the boundary
     # Left boundary:
-    APx[0] = APx[0]-uw_max[0]/(2.0*DXp[0])
+    APx[0] = APx[0]-rf[0]*uw_max[0]/(2.0*rp[0]*DXp[0])
     AW[0] = AW[0]/2.0
     # Right boundary:
     AE[-1] = AE[-1]/2.0
-    APx[-1] = APx[-1] + ue_min[-1]/(2.0*DXp[-1])
+    APx[-1] = APx[-1] + rf[-1]*ue_min[-1]/(2.0*rp[-1]*DXp[-1])
     # build the sparse matrix based on the numbering system
     iix = np.tile(G[1:Nx+1], 3)
     jjx = np.hstack([G[0:Nx], G[1:Nx+1], G[2:Nx+2]])
